@@ -215,7 +215,7 @@ func checkP2(c *Ctx, pr *prioRoles) {
 				}
 				n++
 				key := fmt.Sprintf("%s#strategic.%d", p.FnKey(fn), n)
-				call, isCall := st.Val.(*ssa.Call)
+				call, isCall := stripRefConv(st.Val).(*ssa.Call)
 				okForm := isCall && p.Callee(call) == nil && isDividerType(call.Call.Value.Type()) && len(call.Call.Args) == 3 &&
 					p.isFieldLoad(call.Call.Args[0], "priorities") && isHQ(call.Call.Args[1]) && isNilConst(call.Call.Args[2])
 				c.R.Check(okForm, "P2", key, p.InstrPos(in), "divider(priorities, HandlersQuantity, nil)", "strategic is set to "+p.Sym(st.Val).String()+", not the division of HandlersQuantity among all registered priorities into a new map")
@@ -499,7 +499,7 @@ func checkN2(c *Ctx, pr *prioRoles) {
 					iff := e.From.Instrs[len(e.From.Instrs)-1].(*ssa.If)
 					base, neg := condOf(iff.Cond)
 					if ex, isEx := base.(*ssa.Extract); isEx && ex.Index == 0 {
-						if call, isCall := ex.Tuple.(*ssa.Call); isCall && p.Callee(call) != nil && reachesVac(p.Callee(call)) && (e.Succ == 0) == neg {
+						if call, isCall := ex.Tuple.(*ssa.Call); isCall && p.CalleeX(call) != nil && reachesVac(p.CalleeX(call)) && (e.Succ == 0) == neg {
 							return "only when the round-start calculation could not proceed"
 						}
 					}
@@ -513,7 +513,10 @@ func checkN2(c *Ctx, pr *prioRoles) {
 			var bad []string
 			var sitesOK func(f *ssa.Function, depth int) bool
 			sitesOK = func(f *ssa.Function, depth int) bool {
-				sites := p.CallSites(f)
+				var sites []ssa.CallInstruction
+				for _, sa := range p.CallSitesX(f) { // (also calls through a method value: waitProceed(dsc.calcTactic, dsc.getOneFeedback))
+					sites = append(sites, sa.Call)
+				}
 				if len(sites) == 0 || depth > 3 {
 					return false
 				}
